@@ -1,5 +1,16 @@
 /-
 Lemmas.LnSeed — coarse accuracy of the libm `log` port (the Newton seed of `TwoFloat::ln`).
+
+* §A real-valued specifications of the four primitives in terms of `ExpBound.fv` (`add_fv`, `sub_fv`, `mul_fv`,
+  `div_fv`: relative error `2^-53`, plus `2^-1075` absolute for `mul`/`div`), exact values of the constants of the
+  port (`fv_LG1` … `fv_LN2_LO`), and the predicate `Ap x r δ B` (finite, `|fv x − r| ≤ δ`, `|r| ≤ B`) with combination
+  lemmas for magnitudes below `2^12` (every rounding error `≤ 2^-40`);
+* §D `goBody` (= the body of `Libm.log.go`, `go_eq` by `rfl`) and `goBody_ap`: the computed value is within `30·2^-40` of
+  the exactly evaluated formula `G k f`;
+* §C `G_approx`: `|G k f − (k log 2 + log (1+f))| ≤ 2^-25` (Mercator series via `Real.abs_log_sub_add_sum_range_le`, the
+  coefficients against `2/(2j+1)`, `LN2_HI + LN2_LO` against `ConstBounds.log_two_encl`); `goBody_coarse`;
+* §B `reduce_spec`: the bit-level argument reduction `Libm.reduce` on the pattern of a normal double;
+* §E `go_normal`, `libm_log_coarse24`, `libm_log_coarse`.
 -/
 import TFV.Lemmas.ExpBound
 
@@ -778,12 +789,11 @@ theorem mul_x1p54 {n : ℕ} (hn : 0 < n) (h : n < 2 ^ 52) :
       rw [Nat.cast_mul, Nat.cast_pow, Nat.cast_ofNat]; ring) hr hm
   exact eq_fin_of_toInt hf (by positivity) hv
 
-open ExpBound in
-/-- coarse accuracy of the libm port: every finite positive double (normal or subnormal) -/
-theorem libm_log_coarse (n : ℕ) (hn : 0 < n) (hw : (F64.fin false n).WF) :
+/-- the same with the bound `2^-24` that the proof actually delivers -/
+theorem libm_log_coarse24 (n : ℕ) (hn : 0 < n) (hw : (F64.fin false n).WF) :
     (Libm.log (F64.fin false n)).is_finite = true ∧
-    |fv (Libm.log (F64.fin false n)) - Real.log (fv (F64.fin false n))| ≤ 1 / 2 ^ 20 := by
-  have h2420 : (1 : ℝ) / 2 ^ 24 ≤ 1 / 2 ^ 20 := by norm_num
+    |fv (Libm.log (F64.fin false n)) - Real.log (fv (F64.fin false n))| ≤ 1 / 2 ^ 24 := by
+  have h2420 : (1 : ℝ) / 2 ^ 24 ≤ 1 / 2 ^ 24 := le_rfl
   rw [log_unfold]
   by_cases hN : 2 ^ 52 ≤ n
   · -- normal
@@ -831,5 +841,13 @@ theorem libm_log_coarse (n : ℕ) (hn : 0 < n) (hw : (F64.fin false n).WF) :
         = Real.log (fv (fin false n)) := by push_cast; ring
     rw [e] at he
     exact he
+
+open ExpBound in
+/-- coarse accuracy of the libm port: every finite positive double (normal or subnormal) -/
+theorem libm_log_coarse (n : ℕ) (hn : 0 < n) (hw : (F64.fin false n).WF) :
+    (Libm.log (F64.fin false n)).is_finite = true ∧
+    |fv (Libm.log (F64.fin false n)) - Real.log (fv (F64.fin false n))| ≤ 1 / 2 ^ 20 := by
+  obtain ⟨h1, h2⟩ := libm_log_coarse24 n hn hw
+  exact ⟨h1, le_trans h2 (by norm_num)⟩
 
 end LnSeed
